@@ -19,7 +19,7 @@ DEPENDS = {
     "C04": ("C09", "C11", "C12", "C13"),
     "C05": ("C04",),
     "C06": ("C11", "C15"),
-    "C07": ("C09", "C12", "C05"),
+    "C07": ("C09", "C12", "C05", "C06"),
     "C08": ("C04",),
     "C09": ("C12",),
     "C12": ("C11",),
